@@ -625,3 +625,112 @@ func ROwn(c *core.Ctx) {
 	}
 	c.Check(dropsRuntext && dropsMatchText, "regexp2.(*Regexp).putRunner / drops Runtext and runmatch.text", putRunner.Pos(), "a pooled Runner must not keep the (possibly pooled) input alive or visible to the next user")
 }
+
+// ---------------------------------------------------------------------------
+// R-UNLOCK: every acquisition is paired with a release on every path.
+// A mutex left locked on one return path does not show in any single call —
+// the function returns its normal value — but freezes every later caller (and,
+// for fast.mu, the clock goroutine: no timeout fires again in the process).
+// ---------------------------------------------------------------------------
+
+func RUnlock(c *core.Ctx) {
+	c.Rule("R-UNLOCK", "for every Lock/RLock call in the module: every path from it to a return of the function passes the matching Unlock/RUnlock of the same mutex (or the function defers it), and no path reaches a second acquisition of the same mutex first", 8)
+	p := c.P
+	n := 0
+	for _, fn := range p.ModuleFuncs() {
+		name := core.SSAName(fn)
+		deferred := map[string]bool{}
+		type site struct {
+			b    *ssa.BasicBlock
+			i    int
+			key  string
+			want string
+			pos  token.Pos
+		}
+		var sites []site
+		for _, b := range fn.Blocks {
+			for i, ins := range b.Instrs {
+				ci, ok := ins.(ssa.CallInstruction)
+				if !ok {
+					continue
+				}
+				op, recv := mutexOp(ci)
+				if op == "" {
+					continue
+				}
+				k, ok := addrKey(recv, fn, 0)
+				if !ok {
+					c.Unknown(fmt.Sprintf("%s / mutex operand", name), ins.Pos(), "the mutex operated on is not a global, parameter field or captured variable")
+					continue
+				}
+				if _, isDefer := ins.(*ssa.Defer); isDefer {
+					deferred[op+" "+k] = true
+					continue
+				}
+				switch op {
+				case "lock":
+					sites = append(sites, site{b, i, k, "unlock", ins.Pos()})
+				case "rlock":
+					sites = append(sites, site{b, i, k, "runlock", ins.Pos()})
+				}
+			}
+		}
+		cnt := 0
+		for _, s := range sites {
+			cnt++
+			n++
+			c.Visit(name)
+			key := fmt.Sprintf("%s / acquisition #%d of %s is released on every path", name, cnt, s.key)
+			if deferred[s.want+" "+s.key] {
+				c.Check(true, key, s.pos, "")
+				continue
+			}
+			// forward search from the instruction after the acquisition
+			bad := ""
+			var badPos token.Pos
+			seen := map[*ssa.BasicBlock]bool{}
+			var walk func(b *ssa.BasicBlock, from int)
+			walk = func(b *ssa.BasicBlock, from int) {
+				if bad != "" {
+					return
+				}
+				for _, ins := range b.Instrs[from:] {
+					if ci, ok := ins.(ssa.CallInstruction); ok {
+						if _, isDefer := ins.(*ssa.Defer); !isDefer {
+							if op, recv := mutexOp(ci); op != "" {
+								if k, ok := addrKey(recv, fn, 0); ok && k == s.key {
+									if op == s.want {
+										return // released on this path
+									}
+									if op == "lock" || (op == "rlock" && s.want == "unlock") {
+										bad, badPos = "a second acquisition of the same mutex is reached while it is still held", ins.Pos()
+										return
+									}
+								}
+							}
+						}
+					}
+					if _, ok := ins.(*ssa.Return); ok {
+						bad, badPos = "a return is reached with the mutex still held", ins.Pos()
+						return
+					}
+				}
+				for _, nx := range b.Succs {
+					if !seen[nx] {
+						seen[nx] = true
+						walk(nx, 0)
+					}
+				}
+			}
+			walk(s.b, s.i+1)
+			msg := ""
+			if bad != "" {
+				msg = fmt.Sprintf("%s (at %s): every later caller of this mutex blocks for ever", bad, p.Fset.Position(badPos))
+			}
+			c.Check(bad == "", key, s.pos, "%s", msg)
+		}
+	}
+	if n == 0 {
+		c.Anchor("mutex acquisitions")
+	}
+}
